@@ -65,16 +65,32 @@ theorem typedCells_sub (F : Facts) (i : Inst) (s : WriteSite) (t : String) (c : 
     simp only [hi]
     exact h
 
+/-- a shared cell that a site resolves to for a concrete instance is, up to the identity of the closure value
+    (`Cell.norm`), one of the cells of the instance-independent description `siteAny` -/
 theorem siteCells_sub (F : Facts) (i : Inst) (s : WriteSite) (c : Cell)
-    (h : c ∈ siteCells F i s) (hs : c.shared = true) : c ∈ siteAny F s := by
+    (h : c ∈ siteCells F i s) (hs : c.shared = true) : c.norm ∈ (siteAny F s).map Cell.norm := by
+  have lift : c ∈ siteAny F s → c.norm ∈ (siteAny F s).map Cell.norm := fun hm => List.mem_map.mpr ⟨c, hm, rfl⟩
+  apply (fun (hx : c ∈ siteAny F s ∨ c.norm ∈ (siteAny F s).map Cell.norm) => hx.elim lift id)
   unfold siteCells at h
   unfold siteAny
   split at h
-  · exact h
-  · exact typedCells_sub F i s _ c h hs
-  · exact typedCells_sub F i s _ c h hs
-  · exact typedCells_sub F i s _ c h hs
+  · -- closure-captured variable
+    rename_i o v d
+    right
+    unfold capturedCells at h
+    split at h
+    · rename_i hf
+      simp only [Bool.and_eq_true] at hf
+      obtain ⟨k, _, rfl⟩ := List.mem_map.mp h
+      simp [hf.1, Cell.norm]
+    · simp only [List.mem_singleton] at h
+      subst h; simp [Cell.shared] at hs
+  · exact Or.inl h
+  · exact Or.inl (typedCells_sub F i s _ c h hs)
+  · exact Or.inl (typedCells_sub F i s _ c h hs)
+  · exact Or.inl (typedCells_sub F i s _ c h hs)
   · rename_i b m
+    left
     split at h
     · rename_i g hg
       have hg1 := List.find?_some hg
@@ -90,13 +106,14 @@ theorem siteCells_sub (F : Facts) (i : Inst) (s : WriteSite) (c : Cell)
       exact List.mem_cons_self
 
 theorem stepCells_hidden (F : Facts) (st : Step) (c : Cell) (h : c ∈ stepCells F st) (hs : c.shared = true) :
-    c ∈ (hidden F).map Prod.snd := by
+    c.norm ∈ (hidden F).map Prod.snd := by
   unfold stepCells at h
   obtain ⟨s, hsite, hc⟩ := List.mem_flatMap.mp h
   have hsF : s ∈ F.sites := (List.mem_filter.mp hsite).1
-  refine List.mem_map.mpr ⟨(s.fn, c), ?_, rfl⟩
+  obtain ⟨c', hc', hn⟩ := List.mem_map.mp (siteCells_sub F st.inst s c hc hs)
+  refine List.mem_map.mpr ⟨(s.fn, c'.norm), ?_, hn⟩
   unfold hidden
-  exact List.mem_flatMap.mpr ⟨s, hsF, List.mem_map.mpr ⟨c, siteCells_sub F st.inst s c hc hs, rfl⟩⟩
+  exact List.mem_flatMap.mpr ⟨s, hsF, List.mem_map.mpr ⟨c', hc', rfl⟩⟩
 
 /-! ## frame property of programs -/
 
@@ -108,9 +125,10 @@ theorem run_frame (F : Facts) (prog : List Step) (m m' : Mem) (h : RunRel F prog
     rw [ih (fun st hst => hc st (List.mem_cons_of_mem _ hst))]
     exact hstep c (hc _ List.mem_cons_self)
 
-/-- after ANY program every shared cell that is not in `hidden F` has its initial value -/
+/-- after ANY program every shared cell that is not in `hidden F` (captured cells: whatever value they live in) has its
+    initial value -/
 theorem run_shared_frame (F : Facts) (prog : List Step) (m m' : Mem) (h : RunRel F prog m m') (c : Cell)
-    (hs : c.shared = true) (hc : c ∉ (hidden F).map Prod.snd) : m' c = m c :=
+    (hs : c.shared = true) (hc : c.norm ∉ (hidden F).map Prod.snd) : m' c = m c :=
   run_frame F prog m m' h c (fun st _ hmem => hc (stepCells_hidden F st c hmem hs))
 
 /-! ## isolation: a step writes only `own` cells of its own instance -/
@@ -149,6 +167,11 @@ theorem siteCells_own (F : Facts) (i : Inst) (s : WriteSite) (j : Nat) (t' f' : 
     (h : Cell.own j t' f' ∈ siteCells F i s) : j = i.id := by
   unfold siteCells at h
   split at h
+  · unfold capturedCells at h
+    split at h
+    · simp at h
+    · simp only [List.mem_singleton, Cell.own.injEq] at h
+      exact h.1
   · simp at h
   · exact typedCells_own F i s _ j t' f' h
   · exact typedCells_own F i s _ j t' f' h
@@ -165,6 +188,92 @@ theorem own_cells_of_step (F : Facts) (st : Step) (m m' : Mem) (h : StepRel F st
   unfold stepCells at hmem
   obtain ⟨s, _, hc⟩ := List.mem_flatMap.mp hmem
   exact hj (siteCells_own F st.inst s j t f hc)
+
+/-! ## closure-captured cells: a captured cell of value `k` is written only by steps on instances that hold value `k` -/
+
+theorem aliasCell_not_captured (rest : List String) (i : Nat) (t f : String) (r : Root) (k : Nat) (o v : String) (p : List String) :
+    aliasCell rest (.own i t f) r ≠ .captured k o v p := by
+  cases r <;> simp [aliasCell]
+
+theorem fieldCells_not_captured (F : Facts) (i : Inst) (s : WriteSite) (t : String) (q : List String) (k : Nat) (o v : String)
+    (p : List String) : Cell.captured k o v p ∉ fieldCells F i s t q := by
+  intro h
+  match q, h with
+  | [], h => simp [fieldCells] at h
+  | [f], h => simp [fieldCells] at h
+  | f :: r :: rest, h =>
+    simp only [fieldCells] at h
+    split at h
+    · simp at h
+    · obtain ⟨a, _, ha⟩ := List.mem_map.mp h
+      exact aliasCell_not_captured _ _ _ _ _ _ _ _ _ ha
+
+theorem typedCells_not_captured (F : Facts) (i : Inst) (s : WriteSite) (t : String) (k : Nat) (o v : String) (p : List String) :
+    Cell.captured k o v p ∉ typedCells F i s t := by
+  intro h
+  unfold typedCells at h
+  split at h
+  · rcases List.mem_append.mp h with h1 | h2
+    · exact fieldCells_not_captured F i s t _ k o v p h1
+    · split at h2
+      · exact fieldCells_not_captured F i s t _ k o v p h2
+      · simp at h2
+  · simp at h
+
+theorem siteCells_captured (F : Facts) (i : Inst) (s : WriteSite) (k : Nat) (o v : String) (p : List String)
+    (h : Cell.captured k o v p ∈ siteCells F i s) : k ∈ i.vals.map Prod.snd := by
+  unfold siteCells at h
+  split at h
+  · unfold capturedCells at h
+    split at h
+    · obtain ⟨k', hk', hc⟩ := List.mem_map.mp h
+      simp only [Cell.captured.injEq] at hc
+      rw [← hc.1]
+      unfold valsOf at hk'
+      obtain ⟨q, hq, rfl⟩ := List.mem_map.mp hk'
+      exact List.mem_map.mpr ⟨q, (List.mem_filter.mp hq).1, rfl⟩
+    · simp at h
+  · simp at h
+  · exact absurd h (typedCells_not_captured F i s _ k o v p)
+  · exact absurd h (typedCells_not_captured F i s _ k o v p)
+  · exact absurd h (typedCells_not_captured F i s _ k o v p)
+  · split at h
+    · exact absurd h (fieldCells_not_captured F i s _ _ k o v p)
+    · simp at h
+
+/-- a variable captured per construction (variable of a constructor's activation, or of a function literal) is a cell of
+    the instance for which the closure was created … -/
+theorem capturedCells_owned (F : Facts) (i : Inst) (s : WriteSite) (o v : String) (d : Nat) (h : factoryLevel F o d = false) :
+    capturedCells F i s o v d = [.own i.id ("closure:" ++ o) v] := by
+  simp [capturedCells, h]
+
+/-- … and so is a variable captured at factory level when the instance shares no value of that factory with anybody -/
+theorem capturedCells_unshared (F : Facts) (i : Inst) (s : WriteSite) (o v : String) (d : Nat) (h : valsOf F i o = []) :
+    capturedCells F i s o v d = [.own i.id ("closure:" ++ o) v] := by
+  simp [capturedCells, h]
+
+/-- a variable captured at factory level lives in the value: one cell per shared value the instance was handed -/
+theorem capturedCells_shared (F : Facts) (i : Inst) (s : WriteSite) (o v : String) (d : Nat) (h : factoryLevel F o d = true)
+    (hv : valsOf F i o ≠ []) : capturedCells F i s o v d = (valsOf F i o).map fun k => .captured k o v s.path := by
+  simp [capturedCells, h, hv]
+
+/-- a step on an instance that was not handed value `k` leaves every variable captured inside value `k` alone -/
+theorem captured_cells_of_step (F : Facts) (st : Step) (m m' : Mem) (h : StepRel F st m m') (k : Nat) (o v : String) (p : List String)
+    (hk : k ∉ st.inst.vals.map Prod.snd) : m' (.captured k o v p) = m (.captured k o v p) := by
+  apply h
+  intro hmem
+  unfold stepCells at hmem
+  obtain ⟨s, _, hc⟩ := List.mem_flatMap.mp hmem
+  exact hk (siteCells_captured F st.inst s k o v p hc)
+
+/-- … hence after ANY program in which no step acts on a holder of value `k` -/
+theorem captured_cells_of_run (F : Facts) (prog : List Step) (m m' : Mem) (h : RunRel F prog m m') (k : Nat) (o v : String)
+    (p : List String) (hk : ∀ st ∈ prog, k ∉ st.inst.vals.map Prod.snd) : m' (.captured k o v p) = m (.captured k o v p) := by
+  induction h with
+  | nil => rfl
+  | cons hstep _ ih =>
+    rw [ih (fun st hst => hk st (List.mem_cons_of_mem _ hst))]
+    exact captured_cells_of_step F _ _ _ hstep k o v p (hk _ List.mem_cons_self)
 
 /-! ## interleaving machine -/
 
